@@ -1,5 +1,6 @@
 import Psa.RenderProofs
 import Psa.EvalProofs
+import Psa.Generated.Tables
 /-! # C13 — violation messages list every violated control once and name the offenders -/
 namespace PSA.Props
 open PSA
@@ -94,6 +95,9 @@ theorem C13_restrictedVolumes_detail_names (T : Tables) (relax : Bool) (p : Pod)
   rw [show run T relax .restrictedVolumes0 p = restrictedVolumes_1_0 T p from rfl, C13_restrictedVolumes_offenders]
   exact ⟨_, by simp only [List.append_assoc]; rfl⟩
 
+/-- tie obligation: the volume-type names (nested switch of restrictedVolumes_1_0, in source order) are the model's -/
+theorem C13_volume_names : Generated.volBadKinds = badVolKinds ∧ Generated.volBadDefault = b!"unknown" := by decide
+
 #print axioms C13_fixed_order
 #print axioms C13_reason_specific
 #print axioms C13_once
@@ -104,4 +108,5 @@ theorem C13_restrictedVolumes_detail_names (T : Tables) (relax : Bool) (p : Pod)
 #print axioms C13_restrictedVolumes_offenders
 #print axioms C13_privileged_detail
 #print axioms C13_restrictedVolumes_detail_names
+#print axioms C13_volume_names
 end PSA.Props
